@@ -22,6 +22,8 @@ theorem decode_map (p : Proto) (strict : Bool) (fuel : Nat) (kt vt : Ty) (b : By
           else decodeSet p strict fuel kt n r .nil
       else
         (rMap p b).bind fun ((k, v, n), r) =>
+          let k := if k == .true_ then TType.bool else k
+          let v := if v == .true_ then TType.bool else v
           if n == 0 then .ok (.map .nil, r)
           else if typeOf kt != k then (if strict then .err "typeMismatch" else .ok (.map .nil, r))
           else if typeOf vt != v then (if strict then .err "typeMismatch" else .ok (.map .nil, r))
@@ -167,7 +169,8 @@ theorem decode_norm (p : Proto) (strict : Bool) : (ty : Ty) → (v : Val) → RT
       | cons a l =>
         have hne : ¬ (p = .compact ∧ (a :: l).length = 0) := by simp
         have hn0 : ((a :: l).length == 0) = false := by simp
-        simp only [hne, if_false, hn0, Bool.false_eq_true, bne_self_eq_false]
+        have hntv : (typeOf v == TType.true_) = false := by simpa using typeOf_ne_true v
+        simp only [hne, if_false, hn0, Bool.false_eq_true, hntk, hntv, bne_self_eq_false]
         have hvdec : ∀ b ∈ a :: l, ∀ fuel rest, (encode p v b.2).length + max (depth k) (depth v) ≤ fuel →
             decode p strict fuel v (encode p v b.2 ++ rest) (zeroOf v) = .ok (norm v b.2, rest) := by
           intro b hb fuel rest hfa
